@@ -57,23 +57,23 @@ var oddScalars = []string{"", "~", "null", "true", "false", "yes", "on", "1", "-
 
 // Kind names for the evidence.
 const (
-	MutNone        = "none"
+	MutNone          = "none"
 	MutStructReplace = "struct:replace-node"
-	MutStructKey   = "struct:key-op"
-	MutStructInsert = "struct:insert-schema-key"
-	MutStructNumStr = "struct:number<->string"
-	MutStructNest  = "struct:deep-nesting"
-	MutStructAlias = "struct:alias/anchor"
-	MutLexLineEnd  = "lex:line-terminators"
-	MutLexBOM      = "lex:bom"
-	MutLexTabs     = "lex:tabs"
-	MutLexNUL      = "lex:nul"
-	MutLexUTF8     = "lex:invalid-utf8"
-	MutLexTrunc    = "lex:truncate"
-	MutLexSplice   = "lex:splice"
-	MutLexBytes    = "lex:byte-edits"
-	MutName        = "name:c15-alphabet"
-	MutInclude     = "include:location"
+	MutStructKey     = "struct:key-op"
+	MutStructInsert  = "struct:insert-schema-key"
+	MutStructNumStr  = "struct:number<->string"
+	MutStructNest    = "struct:deep-nesting"
+	MutStructAlias   = "struct:alias/anchor"
+	MutLexLineEnd    = "lex:line-terminators"
+	MutLexBOM        = "lex:bom"
+	MutLexTabs       = "lex:tabs"
+	MutLexNUL        = "lex:nul"
+	MutLexUTF8       = "lex:invalid-utf8"
+	MutLexTrunc      = "lex:truncate"
+	MutLexSplice     = "lex:splice"
+	MutLexBytes      = "lex:byte-edits"
+	MutName          = "name:c15-alphabet"
+	MutInclude       = "include:location"
 )
 
 type nodeRef struct {
@@ -509,9 +509,25 @@ func lexMutate(r *rand.Rand, data []byte, other []byte) ([]byte, string) {
 	}
 }
 
+// depRing is a Taskfile whose n tasks depend on each other in a ring.
+func depRing(n int) []byte {
+	var b strings.Builder
+	b.WriteString("version: '3'\ntasks:\n")
+	for i := 0; i < n; i++ {
+		fmt.Fprintf(&b, "  t%d:\n    deps: [t%d]\n    cmds: [echo]\n", i, (i+1)%n)
+	}
+	return []byte(b.String())
+}
+
 // hugeLexical builds pathological documents that no seed resembles.
-func hugeLexical(r *rand.Rand) ([]byte, string) {
-	switch r.Intn(8) {
+func hugeLexical(r *rand.Rand, thorough bool) ([]byte, string) {
+	k := r.Intn(7)
+	if k == 6 && (!thorough || r.Intn(16) > 0) {
+		// the dependency ring costs a full CPU limit each time it is run: it has one fixed
+		// slot in the input list; in the thorough tier it also appears at random (about 1 input in 3000)
+		k = r.Intn(6)
+	}
+	switch k {
 	case 0:
 		n := []int{50, 500, 5000, 20000}[r.Intn(4)]
 		return []byte("version: '3'\ntasks:\n  a:\n    cmds: " + strings.Repeat("[", n) + strings.Repeat("]", n) + "\n"), MutStructNest + ":flow-seq"
@@ -537,21 +553,15 @@ func hugeLexical(r *rand.Rand) ([]byte, string) {
 		return []byte(b.String()), MutStructAlias + ":expansion"
 	case 4: // anchor cycle
 		return []byte("version: '3'\nvars: &v\n  A: *v\ntasks:\n  a: &t\n    deps: [*t]\n"), MutStructAlias + ":cycle"
-	case 5: // very long scalar / key
+	default: // very long scalar / key
 		n := []int{1 << 10, 1 << 16, 1 << 20}[r.Intn(3)]
 		if r.Intn(2) == 0 {
 			return []byte("version: '3'\ntasks:\n  " + strings.Repeat("k", n) + ": echo\n"), MutLexBytes + ":long-key"
 		}
 		return []byte("version: '3'\ntasks:\n  a:\n    desc: " + strings.Repeat("d", n) + "\n    cmds: ['echo " + strings.Repeat("{{.A}}", n/8) + "']\n"), MutLexBytes + ":long-scalar"
-	case 6: // many tasks / many deps
-		var b strings.Builder
-		b.WriteString("version: '3'\ntasks:\n")
-		n := []int{100, 2000}[r.Intn(2)]
-		for i := 0; i < n; i++ {
-			fmt.Fprintf(&b, "  t%d:\n    deps: [t%d]\n    cmds: [echo]\n", i, (i+1)%n)
-		}
-		return []byte(b.String()), MutStructNest + ":dep-ring"
-	default: // merge keys
+	case 6: // a ring of dependencies
+		return depRing([]int{30, 300}[r.Intn(2)]), MutStructNest + ":dep-ring"
+	case 5: // merge keys
 		return []byte("version: '3'\nx: &x {cmds: [echo], <<: {desc: d}}\ntasks:\n  a: {<<: *x, <<: [*x, *x]}\n  <<: *x\n<<: {tasks: {b: echo}}\n"), MutStructAlias + ":merge-keys"
 	}
 }
